@@ -62,6 +62,8 @@ func gen(a Args, out *Out) {
 		{12, connsim.FreeEnv},
 		{15, connsim.GatedOverflowThenShutdown},
 		{6, connsim.FreeOverflowThenShutdown},
+		{8, connsim.FreeReentrantConsumer},
+		{4, connsim.FreePhases},
 	}
 	var jobs []job
 	var ins []Sx
